@@ -4,8 +4,20 @@
 import json, os, glob
 V = os.path.dirname(os.path.dirname(os.path.abspath(__file__)))
 kf = json.load(open(os.path.join(V, "known_findings.json")))
-have = {(e.get("property"), e.get("class"), json.dumps(e.get("witness"), sort_keys=True)) for e in kf["entries"]}
 n = 0
+fixed_classes = set()
+for f in sorted(glob.glob(os.path.join(V, "findings", "*.json"))):
+    d = json.load(open(f))
+    for e in (d if isinstance(d, list) else d.get("entries", [d])):
+        if e.get("status") == "fixed" and e.get("class"):
+            fixed_classes.add((e.get("property"), e.get("class")))
+# a repaired defect is no longer a finding: its `finding` entries go, the `fixed` entry (which suppresses nothing) comes
+before = len(kf["entries"])
+kf["entries"] = [e for e in kf["entries"]
+                 if not (e.get("status") == "finding" and (e.get("property"), e.get("class")) in fixed_classes)]
+if before != len(kf["entries"]):
+    print("removed", before - len(kf["entries"]), "finding entries whose class is now fixed")
+have = {(e.get("property"), e.get("class"), json.dumps(e.get("witness"), sort_keys=True)) for e in kf["entries"]}
 for f in sorted(glob.glob(os.path.join(V, "findings", "*.json"))):
     d = json.load(open(f))
     es = d if isinstance(d, list) else d.get("entries", [d])
@@ -13,5 +25,5 @@ for f in sorted(glob.glob(os.path.join(V, "findings", "*.json"))):
         k = (e.get("property"), e.get("class"), json.dumps(e.get("witness"), sort_keys=True))
         if k not in have:
             kf["entries"].append(e); have.add(k); n += 1
-json.dump(kf, open(os.path.join(V, "known_findings.json"), "w"), indent=1)
+json.dump(kf, open(os.path.join(V, "known_findings.json"), "w"), indent=1, ensure_ascii=False)
 print("added", n, "entries; total", len(kf["entries"]))
